@@ -19,6 +19,7 @@ CONSTANTS
   HealOdds = 3
   ListLag = TRUE
   FixSkew = FALSE
+  MaxMods = 0
   Edge = FALSE
 VIEW View
 INVARIANTS TypeOK InvExclusion InvHolderHasFile InvNotStale InvFresh InvGoal5 InvGoal7 InvGoal8
